@@ -13,7 +13,10 @@ type PGroup struct {
 	Name    string
 	Members []string
 }
-type PSvc struct{ Name, Proto, Port string }
+type PSvc struct {
+	Name, Proto, Port string
+	Extra             string // further XML below <tcp>/<udp>
+}
 type PRule struct {
 	Name, Action, From, To string
 	Src, Dst, Svc          []string
@@ -50,7 +53,8 @@ func addrName(ip string) string {
 	return "NET_" + base + "_" + bits
 }
 
-var pSvcs = []PSvc{{"tcp 80", "tcp", "80"}, {"tcp 22", "tcp", "22"}, {"udp 123", "udp", "123"}, {"udp 53", "udp", "53"}, {"tcp 1024-65535", "tcp", "1024-65535"}}
+var pSvcs = []PSvc{{"tcp 80", "tcp", "80", ""}, {"tcp 22", "tcp", "22", ""}, {"udp 123", "udp", "123", ""}, {"udp 53", "udp", "53", ""}, {"tcp 1024-65535", "tcp", "1024-65535", ""},
+	{"tcp 1024-65535:80", "tcp", "80", "<source-port>1024-65535</source-port>"}}
 
 func (v *PVsys) clone() *PVsys {
 	n := *v
@@ -250,7 +254,7 @@ func DerivePanDevice(t *tape.Tape, b *PVsys) (*PVsys, []string) {
 		}
 	}
 	for n := t.Next(7); n > 0; n-- {
-		switch t.Next(14) {
+		switch t.Next(15) {
 		case 0: // rule missing on device
 			if len(a.Rules) > 0 {
 				j := t.Next(len(a.Rules))
@@ -356,8 +360,16 @@ func DerivePanDevice(t *tape.Tape, b *PVsys) (*PVsys, []string) {
 		case 8:
 			if len(a.Svcs) > 0 {
 				j := t.Next(len(a.Svcs))
-				a.Svcs[j].Port = "8080"
-				ops = append(ops, "service "+a.Svcs[j].Name+" has another port on device")
+				if t.Next(2) == 0 {
+					a.Svcs[j].Port = "8080"
+					ops = append(ops, "service "+a.Svcs[j].Name+" has another port on device")
+				} else if a.Svcs[j].Extra == "" {
+					a.Svcs[j].Extra = "<source-port>1-1023</source-port>"
+					ops = append(ops, "service "+a.Svcs[j].Name+" has a source-port on device")
+				} else {
+					a.Svcs[j].Extra = ""
+					ops = append(ops, "service "+a.Svcs[j].Name+" lacks its source-port on device")
+				}
 			}
 		case 9: // member list of a rule differs
 			if len(a.Rules) > 0 {
@@ -409,6 +421,17 @@ func DerivePanDevice(t *tape.Tape, b *PVsys) (*PVsys, []string) {
 					r.Action = "allow"
 				}
 				ops = append(ops, "action of rule "+r.Name+" differs")
+			}
+		case 14: // members of a service-group differ
+			if len(a.SGroups) > 0 {
+				g := &a.SGroups[t.Next(len(a.SGroups))]
+				if t.Next(2) == 0 && len(g.Members) > 1 {
+					g.Members = g.Members[1:]
+					ops = append(ops, "service-group "+g.Name+" lacks a member on device")
+				} else {
+					g.Members = append(g.Members, a.useSvc(pSvcs[2+t.Next(2)]))
+					ops = append(ops, "service-group "+g.Name+" has an extra member on device")
+				}
 			}
 		}
 	}
@@ -498,7 +521,7 @@ func (v *PVsys) XML(device bool, spell int) string {
 	if len(v.Svcs) > 0 {
 		b.WriteString("<service>")
 		for _, s := range v.Svcs {
-			fmt.Fprintf(&b, `<entry name="%s"><protocol><%s><port>%s</port></%s></protocol></entry>`, s.Name, s.Proto, s.Port, s.Proto)
+			fmt.Fprintf(&b, `<entry name="%s"><protocol><%s><port>%s</port>%s</%s></protocol></entry>`, s.Name, s.Proto, s.Port, s.Extra, s.Proto)
 		}
 		b.WriteString("</service>")
 	}
